@@ -48,7 +48,7 @@ impl Prop for C10 {
         "one case = (world, history of next/peek_n/advance_to/set_offset/with_offset/set_mode) from (seed, run index); distinct = distinct hash of literal world+history; non-trivial = at least one reset to a non-zero offset followed by at least one token"
     }
     fn runs(&self) -> (u64, u64) {
-        (150_000, 4_000_000)
+        (400_000, 15_000_000)
     }
     fn expected_probes(&self) -> &'static [&'static str] {
         &[
